@@ -30,6 +30,20 @@ CLAIMED = {
                 "`unsafe` from_raw_fd blocks are opaque; `#[cfg(windows)]` code is dropped; seeded changes to the unclaimed clauses of C16 will not be detected by this check.",
         "ref": "5-C16",
     },
+    "C18": {
+        "text": "Proof, for the FORWARDING SLICE of the property only (non-upgraded mode and the byte copy): proxy::copy writes every byte it takes from its reader to its writer, in order "
+                "and unchanged, returns Ok only at the reader's end of file having written all of it, and never retracts what it forwarded on an error; in proxy::handle every request read "
+                "from the client is forwarded unchanged except that org.varlink.service.GetInfo is renamed to org.varlink.resolver.GetInfo; what is written to the service connection is "
+                "exactly the serialised request and one NUL, on a connection made to the address the resolver returned for the request's interface (the text before the last dot; the "
+                "CONFIGURED resolver address for org.varlink.resolver); a reply is awaited only if the request is not oneway; while relaying, every byte read from the service is written "
+                "to the client in order and unchanged, and the relay of one request ends only at the service's end of file, after a reply without `continues`, or on upgrade; the "
+                "`unreachable!()` is unreachable. NOT claimed: the upgraded mode's two copy threads and shutdown order (cut; only copy() itself is verified), WatchClose (epoll), "
+                "handle_connect / --activate / --bridge targets, process exit status, and equality with talking to the service directly beyond the above.",
+        "note": NOTE_COMMON + "handle<R, W> is specialised to concrete stand-in reader/writer types (T8); the unsafe from_raw_fd BufReader construction, Connection, the resolver client, varlink_connect, "
+                "VarlinkStream (target / per-handle log / prophecy of incoming bytes), WatchClose and Call::reply_interface_not_found are stand-ins with assumed contracts; Box<dyn Error> "
+                "is a unit error type (T10); termination of the loops is not claimed; copy() assumes fewer than 2^64 bytes per stream (its u64 byte counter).",
+        "ref": "5-C18",
+    },
     "C19": {
         "text": "Proof, for the STEP-ORDER / CLIENT-ID / CALL-MODE / VALUE-COMPARISON SLICE of the property: ClientIds::check_client_id returns true only if the step table (after expiring old "
                 "entries) has the client id at exactly the step asked for, then sets that client's step to the given next step, never changes another client's step (entries only "
@@ -140,7 +154,6 @@ NOT_APPLICABLE = {
     "C10": "relates the format!/String layout printer to the peg-generated parser; Verus has no str/format! reasoning and Kani exhausts memory on format! (DESIGN.md section 7)",
     "C12": "totality of the macro-generated recursive-descent parser over arbitrary Unicode and nesting; no function-level contract within the verifier's reach (DESIGN.md section 7)",
     "C13": "quantifies over thread schedules and timing of 2..64 OS connections; the installed Verus has no thread model and Kani has no threads (DESIGN.md section 7)",
-    "C18": "relation between two process executions (stdio of `varlink bridge`, epoll close-watching, child processes); no contract can express process exit status",
 }
 
 
